@@ -42,15 +42,16 @@ func parseProblems(rel string, data []byte, warnings bool) []string {
 
 var reQuotedAfterRef = regexp.MustCompile(`(?:\bfrom\s*|\bimport\s*\(?\s*|\burl\(\s*|=\s*)("(?:[^"\\\n]|\\.)*")`)
 
-// decodedSpecs: the double-quoted strings that follow import / from / url( / "=" in the file, escapes decoded
-func decodedSpecs(data []byte) []string {
+// decodedSpecs: the double-quoted strings that follow import / from / url( / "=" in the file,
+// read as string contents of the file's language (unescapeString, pieces.go)
+func decodedSpecs(rel string, data []byte) []string {
 	var out []string
+	css := strings.HasSuffix(rel, ".css")
 	for _, m := range reQuotedAfterRef.FindAllSubmatch(data, -1) {
-		if s, err := strconv.Unquote(string(m[1])); err == nil {
+		if s, ok := unescapeString(string(m[1][1:len(m[1])-1]), css); ok {
 			out = append(out, s)
 		} else {
-			// CSS escapes (\22 , \a ) and JS escapes Go does not know: compare undecoded
-			out = append(out, string(m[1][1:len(m[1])-1]))
+			out = append(out, "<undecodable>"+string(m[1]))
 		}
 	}
 	return out
@@ -86,8 +87,10 @@ func glueSpecialNames(st *Stats) {
 	}
 	chars := []special{
 		{"space", " ", ""}, {"apostrophe", "'", ""}, {"paren", ")", ""}, {"percent", "%", ""}, {"unicode", "é", ""},
-		{"quotation-mark", "\"", "raw-substitution/quotation-mark-in-file-name"},
-		{"newline", "\n", "raw-substitution/control-character-in-file-name"},
+		// repaired by b608b91 (escapeFinalPath): must work; a revert is a violation with these inputs
+		{"quotation-mark", "\"", ""},
+		{"newline", "\n", ""},
+		{"tab-and-soh", "\t\x01", ""},
 		{"backslash", "\\", "raw-substitution/backslash-in-file-name"},
 	}
 	for _, sp := range chars {
@@ -176,14 +179,14 @@ func glueSpecialNames(st *Stats) {
 				if k == target || !(strings.HasSuffix(k, ".js") || strings.HasSuffix(k, ".css")) {
 					continue
 				}
-				for _, s := range decodedSpecs(b.Outputs[k]) {
+				for _, s := range decodedSpecs(k, b.Outputs[k]) {
 					seen = append(seen, s)
 					if s == "./"+target {
 						found = true
 					}
 				}
 				// CSS escapes are not Go escapes: accept the undecoded form when it has none
-				if sp.known == "" && bytes.Contains(b.Outputs[k], []byte("./"+target)) {
+				if sp.known == "" && !strings.ContainsAny(sp.ch, "\"\\\n\t\x01") && bytes.Contains(b.Outputs[k], []byte("./"+target)) {
 					found = true
 				}
 			}
